@@ -25,7 +25,9 @@ m = {
     ],
     "checks": [],
     "not_applicable": [],
-    "notes": "All checks: python3 tools/check.py <id> --tier quick|thorough. Exit 0 held, 1 VIOLATION, 2 machinery error. "
+    "notes": "All checks: python3 tools/check.py <id> --tier quick|thorough. Exit 0 held (KNOWN-FINDING lines allowed), 1 VIOLATION line printed "
+             "(a proof, translator, model or harness build that breaks during a check is reported as VIOLATION ... no-failing-input-found), "
+             "2 setup failure / unknown id / internal exception of check.py. "
              "Known findings: known_findings.json. See DESIGN.md.",
 }
 # families each cross-cutting property names (from the anchors of properties.jsonl); a family with neither a theorem nor a
@@ -55,6 +57,27 @@ def coverage_note(pid, sp):
     return note
 
 
+# statement files whose theorems depend on axioms (Print Assumptions on every theorem, audited in every run against the allow-list
+# of tools/common.py; the per-theorem lists are in the evidence file; see DESIGN.md section 10)
+AXIOM_FILES = {"C01": True, "C04": True, "C11_theta": False, "C17_theta": False, "C18_theta": False}   # True: also Uint63 axioms
+
+
+def axioms_note(pid, sp):
+    files = sp.get("props_files", [sp["props_file"]])
+    ax = [f for f in files if f in AXIOM_FILES]
+    if not ax:
+        return (" Axioms: none - every theorem of the statement files is closed under the global context (Print Assumptions, "
+                "audited every run; kernel primitives for floats / 63-bit integers are listed in the evidence file).")
+    u = [f for f in ax if AXIOM_FILES[f]]
+    return (" Axioms (Print Assumptions, audited every run; per-theorem lists in the evidence file): theorems of %s depend on the "
+            "standard-library axioms Classical_Prop.classic, ClassicalDedekindReals.sig_forall_dec, ClassicalDedekindReals.sig_not_dec, "
+            "FunctionalExtensionality.functional_extensionality_dep (through Flocq / Reals) and the primitive-float specification axioms "
+            "FloatAxioms.{Prim2SF_valid, SF2Prim_Prim2SF, Prim2SF_SF2Prim, *_spec}%s; none is declared by this development; the other "
+            "statement files of this property are closed under the global context."
+            % (", ".join("Props/%s.v" % f for f in ax),
+               (" and (%s) the Uint63 specification axioms Uint63.{of_to_Z, eqb_refl, eqb_correct, *_spec}" % ", ".join(u)) if u else ""))
+
+
 READY = {l.strip() for l in open(os.path.join(os.path.dirname(os.path.abspath(__file__)), 'ready.txt')) if l.strip() and not l.startswith('#')}
 for pid in ALL:
     if pid in registry.PROPS and pid in READY:
@@ -74,7 +97,7 @@ for pid in ALL:
                                                          if pid in FAMILIES_OF else ""),
                               "design_ref": sp.get("design_ref", "DESIGN.md section 5 and section 11")},
             "level_note": sp["level_note"] + ((" Parts merged: " + "; ".join(sp["covers"]) + ".") if sp.get("covers") else "")
-                          + coverage_note(pid, sp),
+                          + coverage_note(pid, sp) + axioms_note(pid, sp),
             "technique": sp.get("technique", "machine-checked proof in Coq (Rocq) about an executable model + checked correspondence to the crate"),
         })
     else:
